@@ -635,15 +635,18 @@ impl<'a, 'tcx> HirV<'a, 'tcx> {
             hir::ExprKind::Lit(l) => format!("lit:{}", lit_str(&l.node)),
             hir::ExprKind::Path(qp) => {
                 let r = self.res_path(qp, e.hir_id);
+                if r.ends_with("::None") {
+                    return "None".to_string();
+                }
                 format!("path:{}", r)
             }
             hir::ExprKind::Call(f, args) => {
                 if let hir::ExprKind::Path(qp) = &f.kind {
                     let r = self.res_path(qp, f.hir_id);
-                    if r.ends_with("Result::Err") {
+                    if r.ends_with("Result::Err") || r.ends_with("::Err") {
                         return "Err".to_string();
                     }
-                    if r.ends_with("Result::Ok") || r.ends_with("Option::Some") {
+                    if r.ends_with("Result::Ok") || r.ends_with("Option::Some") || r.ends_with("::Ok") || r.ends_with("::Some") {
                         let inner = args.get(0).map(|a| self.class(a, depth + 1)).unwrap_or_default();
                         let w = if r.ends_with("Ok") { "Ok" } else { "Some" };
                         return format!("{}({})", w, inner);
